@@ -78,11 +78,23 @@ def main():
             except Exception as exc:
                 tview, tread, tshape = None, None, type(exc).__name__
             kept = [v for v in (view if view.valid else None, tview) if v is not None]
+            # read_direct into a caller's buffer, on the array and on the views
+            def direct(obj, like):
+                buf = np.empty(np.shape(like), dtype=np.asarray(like).dtype)
+                try:
+                    obj.read_direct(buf)
+                    return frl(buf)
+                except Exception as exc:
+                    return type(exc).__name__
+            d_whole = direct(da, whole)
+            d_view = direct(view, vread) if vread is not None and np.size(vread) else None
+            d_tag = direct(tview, tread) if (tview is not None and tread is not None and np.size(tread)) else None
             rawnow = f._h5file["data/b/data_arrays/a%d/data" % k][:]
             res["steps"].append({
                 "whole": frl(whole), "whole_dtype": str(whole.dtype), "region": frl(reg), "region_shape": list(reg.shape),
                 "view": None if vread is None else frl(vread), "view_dtype": None if vread is None else str(vread.dtype),
                 "tagged": None if tread is None else frl(tread), "tagged_shape": tshape,
+                "direct": [d_whole, d_view, d_tag],
                 "whole2": frl(whole2), "whole2_dtype": str(whole2.dtype), "kept": kept_reads,
                 "raw_same": bool(np.array_equal(rawnow, raw)) and str(rawnow.dtype) == str(raw.dtype),
                 "read_coeffs": [fr(x) for x in da.polynom_coefficients], "read_origin": None if da.expansion_origin is None else fr(da.expansion_origin)})
